@@ -285,9 +285,18 @@ func (p *SimPool) Update(ctx context.Context, req pool.UpdateRequest) (*pool.Upd
 	}()
 	if hold != nil {
 		p.S.Fault("pool_slow_to_answer")
-		select {
-		case <-hold:
-		case <-ctx.Done():
+		// (a caller whose time is up does not get an answer, however ready it is: a select among two ready cases
+		// would be a coin the simulator does not own)
+		expired := ctx.Err() != nil
+		if !expired {
+			select {
+			case <-hold:
+				expired = ctx.Err() != nil
+			case <-ctx.Done():
+				expired = true
+			}
+		}
+		if expired {
 			p.rec(PoolCall{Method: "Update", Update: req, Err: ctx.Err()})
 			return nil, ctx.Err()
 		}
